@@ -29,7 +29,7 @@ class C16(Prop):
                   'asyncio runs connect() up to its first suspension atomically.')
     design_ref = '§5 C16'
     rule = ('configurations (periods from 1 us to hours incl. sub-second and sub-millisecond parts, encodings as bytes/str/enum, lease on/off, setup payload present/absent) x transports whose '
-            'provider suspends 0..3 and connect() 0..4 loop iterations x requests injected at each iteration; SETUP/RESUME frames of all flag combinations against a real server with and without '
+            'provider suspends 0..3 and connect() 0..4 loop iterations x requests injected at each iteration; SETUP/RESUME frames of all flag combinations and resume tokens that are empty, text, or opaque bytes (not valid UTF-8) against a real server with and without '
             'lease publisher and with on_setup raising; the SETUP of the connections made by reconnect() - after a healthy connection, a server EOF, or a keepalive timeout with reconnect() called from on_keepalive_timeout; connect() of the new transport suspending 0..3 iterations - compared with the first one (a connection that carries no SETUP at all counts as different); non-trivial = a request issued before connect() returned, a sub-second period, or a rejected setup; distinct = distinct case')
     assumptions = []
 
@@ -64,7 +64,8 @@ class C16(Prop):
         for _ in range(n // 3):
             out.append({'kind': 'srv', 'lp': rng.random() < 0.5,
                         'frames': [{'ty': rng.choice(['SETUP', 'SETUP', 'SETUP', 'RESUME']), 'resume': rng.random() < 0.3, 'lease': rng.random() < 0.5,
-                                    'beh': rng.choice(['k', 'k', 'x']), 'data': [rng.randint(1, 250)]} for _ in range(rng.randint(1, 3))]})
+                                    'beh': rng.choice(['k', 'k', 'x']), 'data': [rng.randint(1, 250)],
+                                    'token': rng.choice([None, '', '61', bytes(rng.getrandbits(8) for _ in range(16)).hex(), 'f0f1f2ff', 'c3a1f0e2'])} for _ in range(rng.randint(1, 3))]})
         return out
 
     def run_impl(self, case):
@@ -178,7 +179,7 @@ class C16(Prop):
         H = engine.EngineRun(loop, 'server', lease_publisher=case['lp'])
         await H.start()
         for f in case['frames']:
-            H.apply({'op': 'recv', 'frame': {'ty': f['ty'], 'sid': 0, 'respond': f['resume'], 'complete': f['lease'], 'data': f['data']}, 'beh': f['beh']})
+            H.apply({'op': 'recv', 'frame': {'ty': f['ty'], 'sid': 0, 'respond': f['resume'], 'complete': f['lease'], 'data': f['data'], 'token': f.get('token')}, 'beh': f['beh']})
             await loop.settle()
         await H.finish()
         return {'steps': H.steps()}
